@@ -75,8 +75,14 @@ impl<Key> AdmissionPolicy<Key>
     fn start(&self, receiver: Receiver<BufferEvent>) {
         let keep_running = self.keep_running.clone();
         let access_frequency = self.access_frequency.clone();
+        #[cfg(cached_verif)]
+        let verif_controller = crate::cache::verif::capture();
 
         thread::spawn(move || {
+            #[cfg(cached_verif)]
+            crate::cache::verif::enter(verif_controller, crate::cache::verif::Role::Consumer);
+            #[cfg(cached_verif)]
+            crate::cache::verif::gate(true);
             while let Ok(event) = receiver.recv() {
                 match event {
                     BufferEvent::Full(key_hashes) => {
@@ -93,6 +99,8 @@ impl<Key> AdmissionPolicy<Key>
                     drop(receiver);
                     break;
                 }
+                #[cfg(cached_verif)]
+                crate::cache::verif::gate(false);
             }
         });
     }
@@ -151,6 +159,8 @@ impl<Key> AdmissionPolicy<Key>
     }
 
     pub(crate) fn shutdown(&self) {
+        #[cfg(cached_verif)]
+        crate::cache::verif::before_send(1, self.sender.is_full());
         let _ = self.sender.clone().send(BufferEvent::Shutdown);
         self.keep_running.store(false, Ordering::Release);
     }
@@ -566,4 +576,13 @@ mod tests {
         assert!(!policy.contains(&1));
         assert!(!policy.contains(&2));
     }
+}
+
+#[cfg(cached_verif)]
+impl AdmissionPolicy<u64> {
+    pub(crate) fn verif_weight_entries(&self) -> Vec<(u64, u64, u64, i64)> { self.cache_weight.verif_entries() }
+    pub(crate) fn verif_chan_len(&self) -> usize { self.sender.len() }
+    pub(crate) fn verif_lfu<R, F: FnOnce(&TinyLFU) -> R>(&self, f: F) -> R { f(&self.access_frequency.read()) }
+    pub(crate) fn verif_set_seeds(&self, seeds: [u64; 4]) { self.access_frequency.write().verif_set_seeds(seeds) }
+    pub(crate) fn verif_max_weight(&self) -> Weight { self.cache_weight.get_max_weight() }
 }
